@@ -98,6 +98,12 @@ def cases(tier, seed):
     for rep in range(2 if tier == "quick" else 12):
         for wd in tmpl:
             add(wd, latency0=rng.random() < 0.5, peers=rng.choice((1, 1, 2)), dense=True)
+    # a rebalance arriving while a partition consumer's commit is unanswered
+    for rep in range(2 if tier == "quick" else 10):
+        for h in (2, 3, 4):
+            for code in (27, 22, 16):
+                add([("OffsetCommit", h - 1, "silent-after-heartbeat", 0), ("Heartbeat", h, "error", code)],
+                    latency0=rng.random() < 0.5, peers=rng.choice((0, 1, 2)), dense=True)
     add([("JoinGroup", 0, "silent", 0)], latency0=True, long=True)
     add([("JoinGroup", 1, "silent", 0)], latency0=False, long=True, peers=1)
     core = [s_ for s_ in S if s_[1] in (0, 1) and s_[0] != "processor"]
@@ -159,7 +165,7 @@ def build(spec):
             procs[k % len(procs)] = ["fail"]
             m0["procs"] = procs
             continue
-        if kind == "error-after-heartbeat":
+        if kind in ("error-after-heartbeat", "silent-after-heartbeat"):
             continue  # installed by the monitor when that heartbeat is issued
         act = dict(kind=kind)
         if kind == "late":
@@ -210,6 +216,9 @@ class Mon(object):
                         if kind == "error-after-heartbeat" and h == self.n_hb - 1:
                             tr.cluster.faults.rules.insert(0, dict(api=api, client_id=b"m0", nth=[0], _seen=0,
                                                                    action=dict(kind="error", code=code)))
+                        if kind == "silent-after-heartbeat" and h == self.n_hb - 1:
+                            tr.cluster.faults.rules.insert(0, dict(api=api, client_id=b"m0", nth=[0, 1, 2], _seen=0,
+                                                                   action=dict(kind="silent", apply=False)))
             if ev["api"] in grp.LOOKUP_APIS + grp.GROUP_APIS:
                 self.last_progress_req[name] = ev["t"]
                 self.idle_since.pop(name, None)
@@ -296,6 +305,11 @@ class Mon(object):
             if full.startswith("afkak.common."):
                 return "kafka-error-escaped-join_and_sync/%s" % full.split(".")[-1]
             return "non-kafka-exception-escaped-join_and_sync"
+        if getattr(m.group, "_rejoin_d", None):
+            stuck = [c for c in m.consumers if getattr(c["obj"], "_shutdown_d", None) is not None]
+            if stuck:
+                return "join-waits-forever-for-a-consumer-shutdown"
+            return "join-in-progress-awaits-nothing"
         last = [e for e in tr.events if e["member"] == m.name and e["kind"] == "req_done"
                 and e["api"] in grp.LOOKUP_APIS + grp.GROUP_APIS]
         if last:
